@@ -948,7 +948,7 @@ mod c18_wrappers {
 mod c18_compound {
     use super::fmt_stub;
     use poulpy_core::layouts::{
-        GGLWE, GGLWECompressed, GGLWEInfos, GGSW, GGSWInfos, GLWEAutomorphismKey, GLWEInfos, GLWEPublicKey, GLWESwitchingKey, GLWESwitchingKeyDegrees,
+        GGLWE, GGLWECompressed, GGLWECompressedSeed, GGLWECompressedSeedMut, GGLWEInfos, GGSW, GGSWInfos, GLWEAutomorphismKey, GLWEInfos, GLWEPublicKey, GLWESwitchingKey, GLWESwitchingKeyDegrees,
         GLWESwitchingKeyDegreesMut, GetGaloisElement, LWEInfos, SetGaloisElement,
     };
     use poulpy_core::{Distribution, GetDistribution, GetDistributionMut};
@@ -1067,10 +1067,15 @@ mod c18_compound {
     #[kani::unwind(40)]
     #[kani::stub(alloc::fmt::format, fmt_stub)]
     fn c18_gglwe_compressed_read_truncated() {
-        let src: GGLWECompressed<Vec<u8>> = GGLWECompressed::alloc(2u32.into(), 9u32.into(), 27u32.into(), 1u32.into(), 1u32.into(), 1u32.into(), 1u32.into());
+        let mut src: GGLWECompressed<Vec<u8>> = GGLWECompressed::alloc(2u32.into(), 9u32.into(), 27u32.into(), 1u32.into(), 1u32.into(), 1u32.into(), 1u32.into());
+        // the PRNG seeds are part of the non-payload state of a compressed key: the stream carries seeds different from the receiver's
+        for s in src.seed_mut().iter_mut() {
+            *s = [0xA5u8; 32];
+        }
         let mut stream: Vec<u8> = Vec::new();
         assert!(src.write_to(&mut stream).is_ok());
         let mut g: GGLWECompressed<Vec<u8>> = GGLWECompressed::alloc(2u32.into(), 8u32.into(), 24u32.into(), 1u32.into(), 1u32.into(), 1u32.into(), 2u32.into());
+        let seeds_before: usize = g.seed().len();
         let total: usize = kani::any();
         kani::assume(total <= stream.len());
         let mut cur = Cursor::new(&stream[..total]);
@@ -1078,8 +1083,15 @@ mod c18_compound {
         if total < stream.len() {
             assert!(r.is_err(), "C18:truncated stream rejected");
             assert!(g.base2k().0 == 8 && g.dsize().0 == 2 && g.max_k().0 == 24, "C18:Err leaves wrapper metadata unchanged");
+            assert!(g.seed().len() == seeds_before, "C18:Err leaves the seed count unchanged");
+            let mut k = 0;
+            while k < seeds_before {
+                assert!(g.seed()[k] == [0u8; 32], "C18:Err leaves the seeds unchanged");
+                k += 1;
+            }
         } else {
             assert!(r.is_ok() && g.base2k().0 == 9 && g.dsize().0 == 1 && g.max_k().0 == 27, "C18:complete stream accepted, metadata from the stream");
+            assert!(g.seed().len() == 1 && g.seed()[0] == [0xA5u8; 32], "C18:complete stream accepted, seeds from the stream");
         }
     }
 
